@@ -426,6 +426,8 @@ def decision_fields(rng):
     return rng.choice([
         {"decision": "deny", "allowed": False}, {"decision": "deny", "allowed": True}, {"decision": "permit", "allowed": False},
         {"decision": "permit", "allowed": True}, {"decision": "permit", "allowed": True, "obligations": [{"type": "x"}]},
+        {"decision": "permit", "allowed": True, "obligations": [{"type": "http_challenge", "on": "deny"}]},
+        {"decision": "permit", "allowed": True, "obligations": [{}]},
         {"decision": "permit", "allowed": True, "obligations": []}, {"decision": "permit", "allowed": True, "obligations": None},
         {"allowed": True}, {"decision": "permit"}, {"decision": None, "allowed": 1, "obligations": "mfa"}, {},
         {"decision": "DENY", "allowed": True, "obligations": {}}])
@@ -437,6 +439,11 @@ def gen_log_cases(chk):
     # ---- (A) sampling grid, complete: rates x draws x decisions (no redaction)
     dec_fields = [{"decision": "deny", "allowed": False}, {"decision": "permit", "allowed": True},
                   {"decision": "permit", "allowed": True, "obligations": [{"type": "require_mfa"}]},
+                  # "permits with obligations": whatever the obligations are (targeted at deny, unknown, empty objects)
+                  {"decision": "permit", "allowed": True, "obligations": [{"type": "http_challenge", "on": "deny"}]},
+                  {"decision": "permit", "allowed": True, "obligations": [{"type": "x", "on": "deny"}, {"on": "deny"}]},
+                  {"decision": "permit", "allowed": True, "obligations": [{}]},
+                  {"decision": "permit", "allowed": True, "obligations": [{"type": "unknown", "on": None}]},
                   {"decision": "deny", "allowed": True}, {"decision": "permit", "allowed": False}, {"allowed": True}, {}]
     rate_cfgs = [{"sample_rate": r} for r in [0, 0.0, -1, -0.5, 0.3, 1, 1.0, 2, 0.999999, 1e-9, True, False]] + [{}]
     smart_cfgs = [{"smart_sampling": True, "sample_rate": sr, **extra}
